@@ -546,6 +546,9 @@ def judge(case, hl, ml, stderr=""):
             continue
         skipped = any(k == "skip" for k in d)
         if skipped:
+            if d.get("skip") == "out-of-step":
+                out.append(("@lps-out-of-step-before:" + op, "real and rational LP have different dimensions in SYNCMODE_AUTO (pre=%s)" % d.get("pre"), j))
+                break
             continue
         c, x = d.get("c", "-"), d.get("x", "-")
         exc = d.get("exc")
@@ -579,11 +582,15 @@ def judge(case, hl, ml, stderr=""):
                 out.append(("asan:%s:%s" % (op, what.split("/")[0]), "ASan report during SoPlex_%s: %s" % (op, what), j))
         elif op in VEC_GETTERS and "beyond-vector" in x:
             nvec = int(x.split("beyond-vector:")[1])
+            xv = x.split(",beyond-vector")[0]
             if op == "getPrimalRationalString":
-                beyond = c != x.split(",beyond-vector")[0]
+                beyond = c != xv
             else:
                 vals = c.split(",") if c not in (".", "-") else []
-                beyond = any(v != "_" for v in vals[nvec:])
+                # on an LP stored scaled the temporary keeps the caller's dimension: the extra elements are its own zeros
+                beyond = any(v != "_" for v in vals[nvec:]) and pre_of(d)[4] == "0"
+                if ",".join(vals[:nvec]) != (xv if xv != "." else ""):
+                    out.append(("ret-mismatch:" + op, "SoPlex_%s returned %s, the C++ getter %s" % (op, c[:300], xv[:300]), j))
             if beyond:
                 out.append(("getter-reads-beyond-vector:" + op, "SoPlex_%s(dim=%s) hands out elements beyond the %d the C++ getter delivered "
                             "(read past the end of the re-dimensioned temporary): C=%s C++=%s" % (op, d.get("args"), nvec, c[:200], x[:200]), j))
@@ -711,7 +718,7 @@ def main():
                         p = d["pre"].split(",")
                         ck.count("state:%s%s%s" % ("sol" if p[2] == "1" else "nosol", "+rat" if p[3] == "1" else "", "+scaled" if p[4] == "1" else ""))
                 if len(hl) < len(c["ops"]) and not any(("exc" in d or "process" in d or d.get("c", "").startswith(("EXC", "SPXEXC"))
-                                                        or d.get("x", "").startswith(("EXC", "SPXEXC")) or d.get("eq", "").startswith("DUMP")) for d in hl):
+                                                        or d.get("x", "").startswith(("EXC", "SPXEXC")) or d.get("eq", "").startswith("DUMP") or d.get("skip") == "out-of-step") for d in hl):
                     ck.violation("short-output", "harness produced fewer transcript lines than calls", {"case": c})
             for sig, what, j in fs:
                 if sig.startswith("@"):
